@@ -75,7 +75,9 @@ class Gen:
         if c in ('simple', 'pass', 'return', 'raise', 'break', 'continue'):
             return (c, 0)
         if c == 'comp':
-            return ('comp', 0, [r.choice([0, 0, 1, 1, 2]) for _ in range(r.randint(1, 2))])
+            # number of `if` clauses after each `for` clause: 0, 1, 2 and 3 (each if clause is a decision point of its own for C03;
+            # pyscn counts at most one per for clause, finding F8)
+            return ('comp', 0, [r.choice([0, 0, 1, 1, 1, 2, 3]) for _ in range(r.randint(1, 2))])
         if c == 'if':
             n_el = r.choice([0, 0, 1, 1, 2, 3]) if self.multi_elif else r.choice([0, 0, 1])
             elifs = [(0, self.block(d, in_loop, in_func, in_class_body)) for _ in range(n_el)]
@@ -632,6 +634,30 @@ def arm_chain_bodies():
     for c in range(1, 5):
         for pat in itertools.product((False, True), repeat=c):
             out.append([('match', 0, [(0, arm(pat[i], i)) for i in range(c)]), _S()])
+    return out
+
+
+def comp_clause_bodies():
+    """Statement-level comprehensions with every combination of 0..3 `if` clauses on one and two `for` clauses (and a few with
+    three), each alone in a function, inside an if / a loop / a handler, after a return (dead: not counted) and next to a second
+    comprehension.  C03 counts every for and every if clause."""
+    import itertools
+    cls = [list(c) for n in (1, 2) for c in itertools.product((0, 1, 2, 3), repeat=n)] + [[0, 2, 3], [1, 1, 1], [3, 0, 2], [2, 2, 2]]
+    out = []
+    for i, cl in enumerate(cls):
+        c = ('comp', 0, cl)
+        out.append([c])
+        out.append([('if', 0, [c], [(0, [_S()])], None), _S()])
+        out.append([('return', 0), c])
+        w = i % 4
+        if w == 0:
+            out.append([('for', 0, [c, ('break', 0)], [c]), ('comp', 0, [1])])
+        elif w == 1:
+            out.append([('try', 0, [_S()], [(0, [c])], None, None), ('comp', 0, [0, 2])])
+        elif w == 2:
+            out.append([('while', 0, [('if', 0, [('continue', 0)], [], None), c], None), ('return', 0), ('comp', 0, [3])])
+        else:
+            out.append([c, ('def', 0, 1000 + i, [('comp', 0, [2, 0])]), ('comp', 0, list(reversed(cl)))])
     return out
 
 
